@@ -663,9 +663,9 @@ class FileCache:
         Return size on disk of the cache in bytes.
         :return: cache size in bytes.
         """
-        return _get_total_size_of_files_in_bytes(
-            list(self._entries.values()), self.path
-        )
+        # the entries hold complete file paths (see _cache_file_path), so they
+        # must not be joined with the cache directory a second time.
+        return _get_total_size_of_files_in_bytes(list(self._entries.values()))
 
     def purge(self) -> None:
         """
